@@ -463,14 +463,14 @@ fn part_parse_edits(rep: &mut Report, thorough: bool, half: usize) {
         });
         rep.add(sec);
         // distance-1 neighbourhoods of the corpus (overwrites only at every position: 255 x len), thorough: everything
-        let sec = Section::new("parse/foreign-corpus-d1", "every distance-1 mutant of every corpus item (quick: every single-byte overwrite of the extension-bearing tail)").with_deadline(cap);
+        let sec = Section::new("parse/foreign-corpus-d1", "every distance-1 mutant of every corpus item (quick: every single-byte overwrite of the last 90 octets: signature, signature algorithm and the tail of the extensions)").with_deadline(cap);
         let idx: Vec<usize> = (0..corpus.len()).collect();
         run::sweep_cases(&sec, &idx, &|i| corpus[*i].0.clone(), &|i| {
             let der = &corpus[*i].1;
             let mut out = Outcome::default();
             let n = d1_count(der.len());
             let lim = 255 * der.len() as u64;
-            let start = if thorough { 0 } else { lim.saturating_sub(255 * 120) };
+            let start = if thorough { 0 } else { lim.saturating_sub(255 * 90) };
             let end = if thorough { n } else { lim };
             let mut k = start;
             while k < end {
